@@ -1005,7 +1005,9 @@ func (t *Topic) saveAndBroadcastMessage(msg *ClientComMessage, asUid types.Uid, 
 	t.lastID++
 	t.touched = msg.Timestamp
 
-	if userFound {
+	if userFound && markedReadBySender {
+		// Keep the cached marks in step with the stored ones: they are written only
+		// for senders with the R permission and the write may have failed.
 		pud.readID = t.lastID
 		pud.recvID = t.lastID
 		t.perUser[asUid] = pud
